@@ -228,13 +228,10 @@ Section Loops.
       deny t (au_field a)
     | None => false
     end.
-  Definition pw_null_child (child : node) (value : json) : json :=
-    match node_path child with
-    | [] => value
-    | cp => match get_path cp value with
-            | Some _ => set_path cp JNull value
-            | None => value
-            end
+  Definition pw_null_at (cp : list bytes) (value : json) : json :=
+    match get_path cp value with
+    | Some _ => set_path cp JNull value
+    | None => value
     end.
 
   Definition pw_fields (nl : bool) (p : list bytes) (path' : rpath) (tns' : list (option bytes)) :=
@@ -247,7 +244,10 @@ Section Loops.
           if pw_denied auth value then
             let e := [{| ge_kind := EK_UNAUTHORIZED; ge_path := push_names path' (node_path child) |}] in
             if node_nullable child then
-              let '(v2, e2, s2) := floop rest (pw_null_child child value) in (v2, e ++ e2, s2)
+              match node_path child with
+              | [] => (value, e, Some (false, WPanic))
+              | cp => let '(v2, e2, s2) := floop rest (pw_null_at cp value) in (v2, e ++ e2, s2)
+              end
             else if nl && (match p with [] => false | _ => true end) then (value, e, Some (true, WOk))
             else (value, e, Some (false, WErr))
           else
@@ -512,29 +512,12 @@ Lemma conforms_obj_eq : forall p nl tyname possible inacc unresolvable fields sr
 Proof. reflexivity. Qed.
 
 (* ---- plan well-formedness, unfolded ---- *)
-Definition path_eqb : list bytes -> list bytes -> bool :=
-  fix eq (a b : list bytes) : bool :=
-    match a, b with
-    | [], [] => true
-    | x :: a', y :: b' => bytes_eqb x y && eq a' b'
-    | _, _ => false
+Definition frpaths : list field -> list (list bytes) :=
+  fix go (fs : list field) : list (list bytes) :=
+    match fs with
+    | [] => []
+    | Fld _ _ _ _ c :: rest => rpaths c ++ go rest
     end.
-Lemma path_eqb_eq : forall a b, path_eqb a b = true <-> a = b.
-Proof.
-  induction a as [|x a IH]; destruct b as [|y b]; simpl; try (split; congruence).
-  rewrite andb_true_iff, bytes_eqb_eq, IH. split; [intros [-> ->]; reflexivity | intros H; inversion H; auto].
-Qed.
-Lemma distinct_paths_cons : forall p r,
-  distinct_paths (p :: r) = negb (existsb (path_eqb p) r) && distinct_paths r.
-Proof. reflexivity. Qed.
-Lemma distinct_paths_notin : forall p r, distinct_paths (p :: r) = true -> ~ In p r /\ distinct_paths r = true.
-Proof.
-  intros p r H. rewrite distinct_paths_cons in H. apply andb_true_iff in H. destruct H as [H1 H2].
-  split; auto. intros Hin. apply negb_true_iff in H1.
-  assert (existsb (path_eqb p) r = true) as E.
-  { apply existsb_exists. exists p. split; auto. apply path_eqb_eq. reflexivity. }
-  congruence.
-Qed.
 
 Definition field_wf (depth : nat) (f : field) : bool :=
   match f with
@@ -545,14 +528,15 @@ Definition field_wf (depth : nat) (f : field) : bool :=
      | None => true
      end) &&
     (match auth with
-     | Some _ => has_path_kind child && negb (bytes_eqb (match node_path child with [k] => k | _ => [] end) typename_key)
+     | Some _ => has_path_kind child && (match node_path child with [] => false | _ => true end)
+                 && head_not_typename (node_path child)
      | None => true
      end) &&
     (match child with
-     | NObj [k] _ _ _ _ _ _ | NArr [k] _ _ => negb (bytes_eqb k typename_key)
+     | NObj p _ _ _ _ _ _ | NArr p _ _ => head_not_typename p
      | _ => true
      end) &&
-    plan_wf false (S depth) child
+    plan_wf (S depth) child
   end.
 Definition fields_wf (depth : nat) : list field -> bool :=
   fix go (fs : list field) : bool :=
@@ -560,20 +544,21 @@ Definition fields_wf (depth : nat) : list field -> bool :=
     | [] => true
     | f :: rest => field_wf depth f && go rest
     end.
-Definition fpaths (fs : list field) : list (list bytes) :=
-  map (fun f => match f with Fld _ _ _ _ c => node_path c end)
-      (filter (fun f => match f with Fld _ _ _ _ c => has_path_kind c end) fs).
 
-Lemma plan_wf_obj_eq : forall as_item depth p nl ty poss inacc unres fields,
-  plan_wf as_item depth (NObj p nl ty poss inacc unres fields) =
-    (if as_item then match p with [] => true | _ => false end else single_key p) &&
-    (distinct_paths (fpaths fields) && fields_wf depth fields).
+Lemma plan_wf_obj_eq : forall depth p nl ty poss inacc unres fields,
+  plan_wf depth (NObj p nl ty poss inacc unres fields) =
+    incomparable_all (frpaths fields) && fields_wf depth fields.
 Proof.
-  intros. unfold plan_wf at 1; fold plan_wf. simpl has_path_kind. cbv iota. simpl node_path.
-  f_equal. f_equal. induction fields as [|[name on pon auth child] rest IH]; [reflexivity|].
+  intros. unfold plan_wf at 1; fold plan_wf. fold (frpaths fields).
+  f_equal. induction fields as [|[name on pon auth child] rest IH]; [reflexivity|].
   simpl fields_wf. unfold field_wf. rewrite <- IH. rewrite <- !andb_assoc. reflexivity.
 Qed.
-Lemma plan_wf_arr_eq : forall as_item depth p nl item,
-  plan_wf as_item depth (NArr p nl item) =
-    (if as_item then match p with [] => true | _ => false end else single_key p) && plan_wf true depth item.
+Lemma plan_wf_arr_eq : forall depth p nl item,
+  plan_wf depth (NArr p nl item) = plan_wf depth item.
+Proof. reflexivity. Qed.
+Lemma rpaths_obj_nil : forall nl ty poss inacc unres fields,
+  rpaths (NObj [] nl ty poss inacc unres fields) = frpaths fields.
+Proof. reflexivity. Qed.
+Lemma frpaths_cons : forall name on pon auth child rest,
+  frpaths (Fld name on pon auth child :: rest) = rpaths child ++ frpaths rest.
 Proof. reflexivity. Qed.
